@@ -175,7 +175,7 @@ func init() {
 				var rels [][2]string
 				var members [][2]string
 				var zms []zipMember
-				var wantToks []string
+				var wantToks, wantNotes []string
 				for i := 0; i < k; i++ {
 					fileNo := perm[i] + 1
 					tok := fmt.Sprintf("tok%dx", it*10+i)
@@ -202,6 +202,15 @@ func init() {
 						members = append(members, [2]string{member, tok})
 						zms = append(zms, zipMember{Name: member, Data: []byte(pptxSlideXML([]string{tok}))})
 						wantToks = append(wantToks, tok)
+						// speaker notes: found through the slide's own relationships
+						note := ""
+						if rng.Bool() && path.Dir(member) == "ppt/slides" {
+							note = fmt.Sprintf("note-of-%s", tok)
+							np := fmt.Sprintf("ppt/notesSlides/notesSlide%d.xml", fileNo)
+							zms = append(zms, zipMember{Name: np, Data: []byte(`<?xml version="1.0"?><p:notes xmlns:a="http://schemas.openxmlformats.org/drawingml/2006/main" xmlns:p="http://schemas.openxmlformats.org/presentationml/2006/main"><p:cSld><p:spTree><p:sp><p:nvSpPr><p:cNvPr id="2" name="Notes"/><p:cNvSpPr/><p:nvPr><p:ph type="body" idx="1"/></p:nvPr></p:nvSpPr><p:spPr/><p:txBody><a:bodyPr/><a:p><a:r><a:t>` + note + `</a:t></a:r></a:p></p:txBody></p:sp></p:spTree></p:cSld></p:notes>`)})
+							zms = append(zms, zipMember{Name: path.Join(path.Dir(member), "_rels", path.Base(member)+".rels"), Data: []byte(`<?xml version="1.0"?><Relationships xmlns="http://schemas.openxmlformats.org/package/2006/relationships"><Relationship Id="rIdN" Type="http://schemas.openxmlformats.org/officeDocument/2006/relationships/notesSlide" Target="../notesSlides/` + path.Base(np) + `"/></Relationships>`)})
+						}
+						wantNotes = append(wantNotes, note)
 					}
 				}
 				if rng.Chance(1, 5) {
@@ -248,13 +257,15 @@ func init() {
 						r.Check(false, "pptx-open", "generated presentation does not open: "+err.Error(), cv)
 					} else {
 						var got VL = VL{}
-						var gotToks []string
+						var gotToks, gotNotes []string
 						for i := 0; i < rd.SlideCount(); i++ {
 							s, _ := rd.Slide(i)
 							t := strings.Join(c18TokRe.FindAllString(s.GetText(), -1), "+")
 							got = append(got, Bs(t))
 							gotToks = append(gotToks, t)
+							gotNotes = append(gotNotes, s.Notes)
 						}
+						r.Check(strings.Join(gotNotes, ",") == strings.Join(wantNotes, ","), "pptx-notes", fmt.Sprintf("speaker notes per slide read as %q, the slides' own notes are %q", gotNotes, wantNotes), cv)
 						r.Case(cv, got, "pptx", k >= 3)
 						r.Check(strings.Join(gotToks, ",") == strings.Join(wantToks, ","), "pptx-order", fmt.Sprintf("slides read as %v, declared readable order is %v", gotToks, wantToks), cv)
 						rd.Close()
@@ -346,6 +357,30 @@ func init() {
 								wantToks = append(wantToks, mm[1])
 							}
 						}
+					}
+				}
+				if rng.Chance(1, 2) && len(members) > 0 {
+					// an unreferenced member whose name differs from a chapter's only in the case of its letters
+					m := members[rng.Intn(len(members))]
+					swapped := strings.Map(func(c rune) rune {
+						switch {
+						case c >= 'a' && c <= 'z':
+							return c - 32
+						case c >= 'A' && c <= 'Z':
+							return c + 32
+						}
+						return c
+					}, path.Base(m[0]))
+					d := path.Join(path.Dir(m[0]), swapped)
+					dup := false
+					for _, x := range members {
+						if x[0] == d {
+							dup = true
+						}
+					}
+					if !dup && d != m[0] {
+						zms = append(zms, zipMember{Name: d, Data: []byte(xhtmlDoc("t", "<p>tok99996x</p>"))})
+						members = append(members, [2]string{d, "tok99996x"})
 					}
 				}
 				if rng.Chance(1, 3) {
